@@ -1089,7 +1089,12 @@ class Engine:
             st.oblige(f"{label}:frame: the loop mutates a container that is not in its modifies clause", z3.BoolVal(False))
 
     def _inv_items(self, spec, st, extra):
-        r = spec.inv(L(self, st, extra))
+        try:
+            r = spec.inv(L(self, st, extra))
+        except AttributeError as e:
+            # the loop contract names a local the code does not have (renamed / removed temporary): contract and code do not match --
+            # undecided, never a verdict
+            raise Unsupported(f"contract/code mismatch: the loop contract refers to `{e}` which is not a local of the code at this loop")
         if isinstance(r, (list, tuple)):
             return [(n, zbool(c)) for n, c in r]
         return [("inv", zbool(r))]
@@ -1750,7 +1755,10 @@ class Engine:
         try:
             a = inspect.getattr_static(cls, name)
         except AttributeError:
-            if cls in getattr(self, "partial_classes", ()) or isinstance(selfv, SRef):
+            if cls in getattr(self, "partial_classes", ()) or isinstance(selfv, SRef) or \
+                    (isinstance(selfv, Loc) and selfv.id not in st.ghost.get("constructed", ())):
+                # (an object handed in by the unit's setup carries only the fields the contract names; only an object built by the real
+                #  constructor during this run is known field by field)
                 # (an opaque reference abstracts every subclass of its python class: an attribute the base class lacks is
                 #  outside the model, not an AttributeError of the real code)
                 # the contract models only the fields it names: reading another instance field is outside the contract
